@@ -74,7 +74,7 @@ PROPS['C17'] = dict(
 )
 PROPS['C18'] = dict(
     props_file='Props/C18.v', kernels=[],
-    step_runs={Q: GEN + [('queue', 100, 40)], T: [('generic', 1500, 40), ('contention', 1500, 60), ('queue', 2000, 80)]},
+    step_runs={Q: GEN + [('queue', 100, 40), ('queue_mixed', 60, 40)], T: [('generic', 1500, 40), ('contention', 1500, 60), ('queue', 2000, 80), ('queue_mixed', 1000, 60)]},
     known_keys={'overtaken_in_queue_unusable_plug': ['can_use']},
 )
 PROPS['C20'] = dict(
